@@ -78,6 +78,94 @@ theorem substituent_order_walk (g : Graph) (hw : WellFormed g) (hok : (walk g).2
   obtain ⟨hnd, hcov, _⟩ := renumbering_injective g hw es ord hr
   exact ⟨t, g', ord, by rw [← hev]; exact h1, h2, h3, hnd, hcov, h4⟩
 
+/-- THE ARRIVAL BOND, PINNED DOWN.  Through the whole round trip, for every atom `x` of a well-formed adjacency list:
+    * if `x` starts a component (its event is a `root`), its re-read bond list is its original list, renumbered — nothing
+      is moved;
+    * otherwise the re-read list is the original with at most one bond moved to the front, and that bond leads to an atom
+      that was visited BEFORE `x` (`pos ord back.tid < pos ord x`) — the traversal can only have arrived from there.
+    (Which earlier atom: the one that was the head when `x` was written — the first bond of every non-root atom of the
+    re-read graph is the bond to the preceding atom, by C02's denotation.)  Proof of the first clause: when a component
+    starts, no visited atom has a bond to an unvisited one (`comps_roots_closed`, Lemmas/OrderL.lean). -/
+theorem substituent_order_pinned (g : Graph) (hw : WellFormed g) (es : List (Event × Nat)) (ord : List Nat)
+    (h : walkRecL g = some (es, ord)) (hne : es ≠ []) :
+    ∃ t g', write? (es.map (·.1)) = some t ∧ (read t).2 = .ok ∧ build? (read t).1 = some (.ok g') ∧
+      ∀ x atomX, g[x]? = some atomX → ∃ atom', g'[pos ord x]? = some atom' ∧
+        ((∃ k, (Event.root k, x) ∈ es) → atom'.bonds = atomX.bonds.map (fun b => ⟨b.kind, pos ord b.tid⟩)) ∧
+        (atom'.bonds = atomX.bonds.map (fun b => ⟨b.kind, pos ord b.tid⟩) ∨
+         ∃ pre back post, atomX.bonds = pre ++ back :: post ∧ (∀ o ∈ pre, o.tid ≠ back.tid) ∧ (∀ o ∈ post, o.tid ≠ back.tid) ∧
+           back.tid ∈ ord ∧ pos ord back.tid < pos ord x ∧
+           atom'.bonds = (back :: (pre ++ post)).map (fun b => ⟨b.kind, pos ord b.tid⟩)) := by
+  obtain ⟨g1, hb, hrelP, hnd, hcov⟩ := rtcP g hw es ord h
+  have hconf : Conformant (es.map (·.1)) := conformant_of_walkRec g es ord h
+  have hne' : es.map (·.1) ≠ [] := by simpa using hne
+  obtain ⟨t, hw', hr⟩ := C09.read_write _ (C01.conformantNE_of_nonempty hconf hne')
+  have hbuild : build? (read t).1 = some (.ok (g1.map normAtom)) := by
+    rw [hr]; simp only; rw [build_norm, hb]; rfl
+  -- the closure fact at every root
+  have hroots : ∀ e ∈ es, ∀ k, e.1 = .root k → ∃ pre post, ord = pre ++ e.2 :: post ∧ e.2 ∉ pre ∧ Closed g pre pre := by
+    have h' := h
+    unfold walkRecL at h'
+    split at h'
+    · cases h'
+    · simp only [Option.map_eq_some_iff] at h'
+      obtain ⟨⟨es0, ord0, pool0⟩, hc, heq⟩ := h'
+      simp only [Prod.mk.injEq] at heq
+      obtain ⟨rfl, rfl⟩ := heq
+      exact (comps_roots_closed g (recFuel g) (List.range g.length) [] .init es0 ord0 pool0 hc
+        (by intro a ha; cases ha)).2
+  refine ⟨t, g1.map normAtom, hw', by rw [hr], hbuild, ?_⟩
+  intro x atomX hgx
+  have hx : x ∈ ord := (hcov x).mp (by
+    apply Nat.lt_of_not_le; intro hge
+    rw [List.getElem?_eq_none_iff.mpr hge] at hgx; cases hgx)
+  obtain ⟨atomX', arr, hgx', harr, hg1⟩ := hrelP.2 x hx
+  rw [hgx] at hgx'; cases hgx'
+  refine ⟨_, by rw [List.getElem?_map, hg1]; rfl, ?_, ?_⟩
+  · -- a root has no arrival atom
+    rintro ⟨k, hk⟩
+    cases arr with
+    | none => simp [normAtom, arrivalFirst]
+    | some q =>
+      exfalso
+      obtain ⟨⟨hq, hlt⟩, back, hback⟩ := harr q rfl
+      obtain ⟨pre, post, hsplit, hnot, hclosed⟩ := hroots _ hk k rfl
+      simp only at hsplit hnot
+      -- q was visited before x, so it lies in `pre`
+      have hposx : pos ord x = pre.length := pos_prefix_new hsplit hnd
+      have hqpre : q ∈ pre := by
+        apply Classical.byContradiction
+        intro hqn
+        have : pos ord q = pos (x :: post) q + pre.length := by
+          rw [hsplit]; unfold pos
+          rw [List.idxOf_append, if_neg hqn]
+        omega
+      -- q is bonded to x, so x is among the atoms reachable from `pre`
+      obtain ⟨_, _, tatom, htat, back', hback', _⟩ := hw x atomX hgx back (by
+        have : back ∈ bondsTo atomX.bonds q := by rw [hback]; simp
+        unfold bondsTo at this; exact (List.mem_filter.mp this).1)
+      have hbt : back.tid = q := by
+        have : back ∈ bondsTo atomX.bonds q := by rw [hback]; simp
+        unfold bondsTo at this; simpa using (List.mem_filter.mp this).2
+      rw [hbt] at htat
+      have hb'mem : back' ∈ tatom.bonds := by
+        have : back' ∈ bondsTo tatom.bonds x := by rw [hback']; simp
+        unfold bondsTo at this; exact (List.mem_filter.mp this).1
+      have hb'tid : back'.tid = x := by
+        have : back' ∈ bondsTo tatom.bonds x := by rw [hback']; simp
+        unfold bondsTo at this; simpa using (List.mem_filter.mp this).2
+      have := hclosed q hqpre tatom htat back' hb'mem
+      rw [hb'tid] at this
+      exact hnot this
+  · cases arr with
+    | none => left; simp [normAtom, arrivalFirst]
+    | some q =>
+      right
+      obtain ⟨⟨hq, hlt⟩, back, hback⟩ := harr q rfl
+      obtain ⟨pre, post, h1, h2, h3, h4⟩ := bondsTo_singleton_split hback
+      refine ⟨pre, back, post, h1, by rw [h2]; exact h3, by rw [h2]; exact h4, by rw [h2]; exact hq, by rw [h2]; exact hlt, ?_⟩
+      simp only [normAtom]
+      rw [h1, arrivalFirst_split h2 h3 h4]
+
 /-- COMPONENTS START AT THE LOWEST-NUMBERED UNVISITED ATOM: for every `root` event of the traversal (labelled with the
     atom `x` it starts at), the visit order splits as `pre ++ x :: post` where `pre` — what had been visited before —
     contains every atom with a lower number than `x` and not `x`, and everything visited afterwards has a higher number -/
